@@ -375,7 +375,7 @@ func (s *Space) Kind(i int) string {
 }
 
 // quickShapes are the cyclic shapes of the quick tier (all operations, main placement).
-var quickShapes = []string{"cyclic-array", "cyclic-map", "cyclic-immutable-array"}
+var quickShapes = []string{"cyclic-array", "cyclic-map", "cyclic-pair", "cyclic-immutable-array"}
 
 func quickSkipsShape(a *Atom) bool {
 	if !strings.HasPrefix(a.Name, "cyc/") {
@@ -480,7 +480,7 @@ func enumerate(thorough bool) *Space {
 			continue
 		}
 		if !thorough && quickSkipsShape(a) {
-			continue // seven of the ten cyclic shapes: thorough tier only
+			continue // the other cyclic shapes: thorough tier only
 		}
 		for _, p := range placementsFor(a, thorough) {
 			s.atoms = append(s.atoms, acase{atom: int32(ai), pl: plIdx[p]})
